@@ -37,6 +37,9 @@ THEOREMS = [P + n for n in [
     "bnot_text_guard_separates",
     "neg_node_guard_counterexample",
     "bitwisenot_glue_witness",
+    "generated_paren_unwraps_all",
+    "unnest_print_parse_fixpoint",
+    "strip_one_level_counterexample",
     "athena_engine_model_matches_source",
     "athena_engine_choice_agrees",
     "generated_athena_ctas_engines_agree",
@@ -253,6 +256,42 @@ def time_tables() -> dict:
     return out
 
 
+def paren_unwrap_sites(chk: Check) -> list:
+    """generator code of the shape `<x>.unnest() if isinstance(<x>, exp.Paren) else <x>` (strips ALL redundant Paren levels)
+    versus `<x>.this if isinstance(<x>, exp.Paren) …` (strips ONE): (file:function:variable, kind) by ast over the generator sources"""
+    import glob
+
+    files = sorted(glob.glob(os.path.join(REPO, "sqlglot", "generators", "*.py")) + [os.path.join(REPO, "sqlglot", "generator.py"),
+                                                                                    os.path.join(REPO, "sqlglot", "dialects", "dialect.py")])
+    sites = []
+    for f in files:
+        try:
+            tree = ast.parse(open(f, encoding="utf-8").read())
+        except Exception:  # noqa
+            continue
+        for fn in ast.walk(tree):
+            if not isinstance(fn, (ast.FunctionDef, ast.Lambda)):
+                continue
+            fname = getattr(fn, "name", "<lambda>")
+            for n in ast.walk(fn):
+                if not isinstance(n, (ast.IfExp, ast.If)):
+                    continue
+                t = n.test
+                if not (isinstance(t, ast.Call) and isinstance(t.func, ast.Name) and t.func.id == "isinstance" and len(t.args) == 2
+                        and isinstance(t.args[0], ast.Name) and isinstance(t.args[1], ast.Attribute) and t.args[1].attr == "Paren"):
+                    continue
+                var = t.args[0].id
+                body = n.body if isinstance(n, ast.IfExp) else ast.Module(body=n.body, type_ignores=[])
+                kind = "keep"
+                for b in ast.walk(body):
+                    if isinstance(b, ast.Call) and isinstance(b.func, ast.Attribute) and b.func.attr == "unnest" and isinstance(b.func.value, ast.Name) and b.func.value.id == var:
+                        kind = "all"
+                    elif isinstance(b, ast.Attribute) and b.attr == "this" and isinstance(b.value, ast.Name) and b.value.id == var and kind != "all":
+                        kind = "one"
+                sites.append((f"{os.path.relpath(f, REPO)}:{fname}:{var}", kind))
+    return sorted(set(sites))
+
+
 ATHENA_SHAPES = [
     # (name, sample statement, first, kind, orReplace, body, nestedSelect)
     ("ctas-none", "CREATE TABLE t (a INT)", "create", "table", False, "none", False),
@@ -369,6 +408,10 @@ def translate(chk: Check, tabs: dict) -> str:
     lines.append("/-- (shape name, shape, `_tokenize_as_hive` on the sample's tokens, `_generate_as_hive` on its parse) -/")
     lines.append("def athenaShapes : List (String × SqlglotModel.Engine.Shape × Bool × Bool) := [" + ", ".join(
         f"({lean_str(n)}, ⟨.{f}, .{k}, {b(o)}, .{bd}, {b(ns)}⟩, {b(t)}, {b(g)})" for n, f, k, o, bd, ns, t, g in rows) + "]")
+    sites = paren_unwrap_sites(chk)
+    chk.cov["paren_unwrap_sites"] = sites
+    lines.append("/-- generator sites that unwrap a redundant Paren around an operand: (site, levels stripped) -/")
+    lines.append("def parenUnwrapSites : List (String × SqlglotModel.Engine.Unwrap) := [" + ", ".join(f"({lean_str(n)}, .{k})" for n, k in sites) + "]")
     lines.append("end SqlglotModel.Generated.C01")
     chk.cov["distinct_table_sets"] = len(distinct)
     chk.cov["dialects"] = len(tabs)
@@ -834,6 +877,32 @@ OPERAND_FORMS = ["MOD({a}, b)", "POWER({a}, 2)", "POW({a}, 2)", "CONCAT({a}, b)"
 INNER = ["-a", "- a", "~a", "-1", "-1.5", "- -a", "~ ~a", "NOT a", "-(a)", "-f(a)"]
 
 
+PAREN_FORMS = ["{x} % {y}", "MOD({x}, {y})", "{x} DIV {y}", "DIV({x}, {y})", "{x} ** {y}", "POWER({x}, {y})", "POW({x}, {y})", "{x} || {y}",
+               "CONCAT({x}, {y})", "{x} & {y}", "BITWISE_AND({x}, {y})", "{x} | {y}", "{x} ^ {y}", "BITWISE_XOR({x}, {y})", "{x} << {y}",
+               "{x} / {y}", "SAFE_DIVIDE({x}, {y})", "{x} + {y}", "{x} - {y}", "{x} * {y}", "-{x}", "~{x}", "NOT {x}", "{x} IS NULL",
+               "{x} IN ({y})", "CAST({x} AS INT)", "{x}::INT", "COALESCE({x}, {y})", "IF({x}, 1, 2)", "{x} BETWEEN {y} AND 9", "ABS({x})",
+               "{x} = {y}", "{x} AND {y}", "{x} LIKE {y}", "NULLIF({x}, {y})", "GREATEST({x}, {y})", "{x}[1]", "LOG({x}, {y})",
+               "INTDIV({x}, {y})", "BITWISE_LEFT_SHIFT({x}, {y})", "SHIFTLEFT({x}, {y})", "ARRAY_CONCAT({x}, {y})"]
+
+
+def wrap_parens(text: str, depth: int) -> str:
+    return "(" * depth + text + ")" * depth
+
+
+def paren_depth_product(full: bool):
+    """redundant parenthesis depth (1-3 levels) around the operands of every operator / function that some dialect rewrites
+    between infix and call form"""
+    inners = ["a + 1", "a"] if not full else ["a + 1", "a", "-a", "f(a)", "a = 1"]
+    for f in PAREN_FORMS:
+        for inner in inners:
+            for dx in (1, 2, 3):
+                yield "SELECT " + f.format(x=wrap_parens(inner, dx), y="7")
+            yield "SELECT " + f.format(x="b", y=wrap_parens(inner, 2))
+            if full:
+                yield "SELECT " + f.format(x=wrap_parens(inner, 2), y=wrap_parens(inner, 3))
+                yield "SELECT 1 FROM t WHERE c = " + f.format(x=wrap_parens(inner, 2), y="7")
+
+
 def prefix_product(full: bool):
     """quick tier: 3 prefixes x all operand forms x 4 signed first arguments; thorough: the whole product, two contexts"""
     prefixes = PREFIXES if full else ["-", "~", "NOT "]
@@ -1108,6 +1177,12 @@ def search(chk: Check, hints: list, tabs: dict, budget_s: float) -> None:
         for s in prod:
             consider_fixed(s, d)
     chk.cov["prefix_operator_product"] = {"sources": len(prod), "dialects": len(dialects), "wall_s": round(time.time() - t1, 1)}
+    t1 = time.time()
+    pprod = list(paren_depth_product(not chk.quick))
+    for d in dialects:
+        for s in pprod:
+            consider_fixed(s, d)
+    chk.cov["paren_depth_product"] = {"sources": len(pprod), "dialects": len(dialects), "wall_s": round(time.time() - t1, 1)}
     msd = mode_switch_dialects()
     chk.cov["mode_switch_dialects"] = msd
     for d in msd:
@@ -1159,7 +1234,7 @@ def run(chk: Check) -> None:
         if proved:
             raise
         chk.note(f"model driver unavailable ({e}); continuing with the search on the real code")
-    budget = chk.pick(24, 300)
+    budget = chk.pick(18, 300)
     if chk.broken:
         budget *= 2
     search(chk, hints, tabs, budget)
